@@ -321,6 +321,20 @@ def fam_watch_keys(maxlen):
     return out
 
 
+def fam_failing_start():
+    """C13: start() itself fails because one of several emitters cannot be started.  That emitter is discarded (its watch
+    keeps its handlers), every other watch keeps its emitter, and start() can be tried again - and must then succeed."""
+    out = []
+    for order in ("asc", "desc"):
+        for bad in (1, 2):
+            for tail in ([["start"], ["probe"], ["await"], ["probe"], ["stop"], ["join"]],
+                         [["schedule", 3, bad], ["probe"], ["start"], ["probe"], ["await"], ["probe"], ["stop"], ["join"]],
+                         [["unschedule", 3 - bad], ["probe"], ["start"], ["probe"], ["stop"], ["join"]]):
+                out.append({"threads": {"app1": [["schedule", 1, 1], ["schedule", 2, 2], ["probe"], ["start"], ["probe"]] + tail},
+                            "emit": {"1": [1], "2": [1]}, "fail_start": {str(bad): 1}, "em_order": order})
+    return out
+
+
 def fam_failures(maxlen):
     """C13: schedule() that raises (emitter cannot be created / cannot be started) at every position of short sequences,
     followed by a successful schedule of the same watch for another handler and an event."""
